@@ -167,6 +167,17 @@ func (x *fsx) shapeOf(s *an.PathState, t *an.Term, depth int) shape {
 				}
 				return shape{Kind: "other", Why: "Join(base, constant " + v + ")"}
 			}
+			if bb := b.StripConv(); bb.Op == "binop" && bb.Aux == "+" {
+				// Join(base, name+ext) names the same file as Join(base, name)+ext
+				if ext, isC := bb.Args[1].ConstString(); isC && !strings.ContainsAny(ext, "/\\") {
+					if isEntryDerived(bb.Args[0]) {
+						return shape{Kind: "entry", Ext: ext}
+					}
+					if _, isConst := bb.Args[0].ConstString(); !isConst {
+						return shape{Kind: "user", User: bb.Args[0], Ext: ext}
+					}
+				}
+			}
 			if isEntryDerived(b) {
 				if b.StripConv().Op == "load" {
 					return shape{Kind: "entry"} // a directory entry name as returned by Readdirnames
@@ -405,8 +416,10 @@ func (x *fsx) paramAtCallers(fn *ssa.Function, param string, isFile bool, depth 
 			out = append(out, shape{Kind: "other", Why: "dynamic call of " + fn.Name()})
 			continue
 		}
-		shs, _ := x.operandShapes(e.Caller.Func, site, pidx, isFile, depth)
-		out = append(out, shs...)
+		for _, root := range an.InlineRoots(e.Caller.Func) {
+			shs, _ := x.operandShapes(root, site, pidx, isFile, depth)
+			out = append(out, shs...)
+		}
 	}
 	return out
 }
